@@ -303,7 +303,7 @@ func zzH20d() {
 	rec := &zzRec{}
 	cctx := zzNewContext(rec, &zzState{})
 	term := &terminator{}
-	zzGuardedBy(&term.term, &term.mu, "terminator.term")
+	zzGuardedIn(&term.term, term, "terminator.term")
 	var sig os.Signal
 	kind := zzNondetChoice("signal", 3)
 	switch kind {
